@@ -19,13 +19,13 @@ THEOREMS = [
     'Pysmi.Reader.C14_variants_sound',
     'Pysmi.Reader.C14_variants_complete', 'Pysmi.Reader.C14_variants_complete_all', 'Pysmi.Reader.C14_variants_total',
     'Pysmi.Reader.C14_variants_default_total',
-    'Pysmi.Reader.C14_index_precedence',
+    'Pysmi.Reader.C14_index_precedence', 'Pysmi.Reader.C14_index_absent', 'Pysmi.Reader.C14_index_last_wins', 'Pysmi.Reader.C14_index_short_lines',
     'Pysmi.Reader.C14_dir_lookup_sound',
     'Pysmi.Reader.C14_dir_lookup_none',
     'Pysmi.Reader.C14_never_truncated',
     'Pysmi.Reader.C14_zip_lookup_sound',
     'Pysmi.Reader.C14_zip_members_top',
-    'Pysmi.Reader.C14_url_kind',
+    'Pysmi.Reader.C14_url_kind', 'Pysmi.Reader.C14_url_target',
 ]
 TECHNIQUE = ('Lean 4 theorems about a model of getMibVariants, .index precedence, directory-tree lookup, the ZIP member table '
              '(any nesting) and URL->reader kind; differential correspondence against FileReader/ZipReader/getReadersFromUrls on '
@@ -124,6 +124,9 @@ def run_filereader(rng, name, opts, use_index_entry):
         if use_index_entry and files:
             rel = rng.choice(sorted(files))
             index = [[name, os.path.basename(rel)]] if rng.random() < 0.7 else [['OTHER-MIB', os.path.basename(rel)]]
+            if rng.random() < 0.4:
+                # an earlier line for the same module (the later one counts, as in a dictionary), lines for other modules
+                index = [[name, 'superseded.txt'], ['ELSE-MIB', os.path.basename(rel)]] + index
             with open(os.path.join(root, '.index'), 'w') as f:
                 # (a line that does not hold a module name and a file name maps nothing)
                 f.write(rng.choice(['', '\n', '   \n', 'loneword\n', '# comment\n\n']))
@@ -295,16 +298,23 @@ def run_urls(ctx):
             kind = 'unsupported' if 'Unsupported URL scheme' in str(e) else 'error:' + str(e)
         pr = urlparse.urlparse(u)
         path = url2pathname(pr.path) if pr.scheme in ('', 'file', 'zip') else pr.path
+        raw_path = path
         if pr.scheme == 'zip' and pr.netloc:
             path = url2pathname(pr.netloc + pr.path)
+        have = None
         if kind in ('file', 'zip'):
             # ... and the reader is made for that path
             have = getattr(rs[0], '_name', None) if kind == 'zip' else getattr(rs[0], '_path', None)
             if have != (path if kind == 'zip' else os.path.normpath(path)):
                 res.oracle_failures.append({'key': 'url-kind', 'what': 'URL %s gives a %s reader on %r, the URL names %r' % (u, kind, have, path),
                                             'input': {'url': u, 'want_path': path}})
-        reqs.append({'op': 'urlkind', 'scheme': pr.scheme, 'path': path})
-        metas.append((u, kind))
+        if pr.scheme in ('', 'file', 'zip'):
+            reqs.append({'op': 'urlkind', 'scheme': pr.scheme, 'netloc': pr.netloc, 'path': raw_path})
+            metas.append((u, [kind, have if kind == 'zip' else (raw_path if not (pr.scheme == 'zip' and pr.netloc) else path)]
+                          if kind in ('file', 'zip') else kind))
+        else:
+            reqs.append({'op': 'urlkind', 'scheme': pr.scheme, 'path': path})
+            metas.append((u, kind))
         res.case(('url', u), True)
         res.count('url:' + kind)
         # oracle: what scheme and extension denote
@@ -361,9 +371,9 @@ def run(ctx):
             if not indexed and got['file'] not in liberal_variants(name):
                 res.oracle_failures.append({'key': 'unrelated-file', 'what': 'FileReader returned %s for module %s' % (got['file'], name),
                                             'input': {'filereader': req}})
-            if indexed and got['file'] != index[0][1]:
+            if indexed and got['file'] != [v for k, v in index if k == name][-1]:
                 res.oracle_failures.append({'key': 'index-precedence', 'what': '.index maps %s to %s but %s was returned' % (
-                    name, index[0][1], got['file']), 'input': {'filereader': req}})
+                    name, [v for k, v in index if k == name][-1], got['file']), 'input': {'filereader': req}})
         elif got == 'indexerror':
             res.oracle_failures.append({'key': 'raises', 'what': 'FileReader.getData(%s) raised an exception that is not the package error under %r' % (name, sorted(opts.items())),
                                         'input': {'filereader': req}})
@@ -520,7 +530,7 @@ def replay(payload):
             with open(info.path[len('file://'):], 'rb') as f:
                 raw = f.read()
             ok = data == decode(raw) and (info.file in liberal_variants(req['name']) or indexed) and \
-                (not indexed or info.file == indexed[0])
+                (not indexed or info.file == indexed[-1])
             return {'fails': not ok, 'what': 'returned %s' % info.file}
         except error.PySmiReaderFileNotFoundError:
             hit = present & doc_variants(req['name'], req['fuzzy'], opts=req)
